@@ -65,7 +65,7 @@ def filtered(nm, rng, inner=None, wraps=False):
 
 
 def elem_c07(nm, rng):
-    k = rng.choice(["rec", "filtered", "filtered", "filtered", "gfilter", "tree1", "tree2", "tree3", "vec", "opt", "box", "nested", "evveto"])
+    k = rng.choice(["rec", "filtered", "filtered", "filtered", "gfilter", "tree1", "tree2", "tree3", "vec", "vecnone", "opt", "box", "nested", "evveto"])
     if k == "rec":
         return rec(nm, rng)
     if k == "filtered":
@@ -82,6 +82,10 @@ def elem_c07(nm, rng):
         return {"e": "and_then", "a": a, "b": b}
     if k == "vec":
         return {"e": "vec", "items": [rng.choice([filtered(nm, rng), rec(nm, rng)]) for _ in range(rng.choice([1, 2, 2]))]}
+    if k == "vecnone":   # an absent element next to real ones: the Vec answers the none-marker query although it is not absent
+        items = [{"e": "opt", "inner": None}] + [rng.choice([filtered(nm, rng), filtered(nm, rng), rec(nm, rng)]) for _ in range(rng.choice([1, 1, 2]))]
+        rng.shuffle(items)
+        return {"e": "vec", "items": items}
     if k == "opt":
         return {"e": "opt", "inner": rng.choice([filtered(nm, rng), None])}
     if k == "box":
@@ -123,7 +127,10 @@ def elem_c09(nm, rng):
     if k == "and_then":
         return {"e": "and_then", "a": rec(nm, rng), "b": wrapper(rng, rec(nm, rng)) if rng.random() < 0.5 else rec(nm, rng)}
     if k == "vec2":
-        return {"e": "vec", "items": [rec(nm, rng), wrapper(rng, rec(nm, rng))]}
+        items = [rec(nm, rng), wrapper(rng, rec(nm, rng))]
+        if rng.random() < 0.4:
+            items.insert(rng.randint(0, 2), {"e": "opt", "inner": None})
+        return {"e": "vec", "items": items}
     return {"e": "evveto", "tgt": "b"}
 
 
@@ -242,6 +249,18 @@ def behaviour(rng, flavour):
             elems = [rng.choice([rec(nm, rng), filtered(nm, rng)]), g, filtered(nm, rng)]
             if rng.random() < 0.5:
                 elems.append(rng.choice([rec(nm, rng), filtered(nm, rng)]))
+        elif rng.random() < 0.15:
+            # hint mixtures: per-layer-filtered layers of different verbosity, some of them inside a Vec next to an absent
+            # member (the Vec then answers the none-marker query), in every order
+            def lf():
+                return {"e": "filtered", "f": {"k": "level", "l": rng.choice([1, 2, 3, 4, 5])}, "inner": rec(nm, rng)}
+            def vn():
+                items = [{"e": "opt", "inner": None}, lf()] + ([lf()] if rng.random() < 0.3 else [])
+                rng.shuffle(items)
+                return {"e": "vec", "items": items}
+            elems = [rng.choice([lf(), lf(), vn(), {"e": "box", "inner": lf()}]) for _ in range(rng.choice([2, 2, 3]))]
+            if not any(e["e"] == "vec" for e in elems):
+                elems[rng.randrange(len(elems))] = vn()
         else:
             n = rng.choice([1, 2, 2, 3, 3, 4])
             elems = [elem_c07(nm, rng) for _ in range(n)]
